@@ -1,4 +1,4 @@
 From Coq Require Import Extraction ExtrOcamlBasic ExtrOcamlString.
 From Oras Require Import Base.Prelude Model.Pack Model.PackEnc Model.PackSha.
 Extraction Language OCaml.
-Extraction "xc19.ml" valid_media_type rfc3339_ok pack init_state empty_json empty_json_digest san_manifest utf8_san rfc3339_ok_prefix json_manifest json_string base64 format_rfc3339_utc civil_ok digest_of json_ann read_obj.
+Extraction "xc19.ml" valid_media_type rfc3339_ok pack init_state empty_json empty_json_digest san_manifest utf8_san rfc3339_ok_prefix json_manifest json_string base64 format_rfc3339_utc civil_ok digest_of json_ann read_obj doc_media_type doc_artifact_type doc_config_head.
